@@ -43,6 +43,11 @@ func (*c15Good) VerifMarker() {}
 
 type c15Bad struct{ id int }
 
+// c15BadSig has a method of the right name but the wrong signature.
+type c15BadSig struct{ id int }
+
+func (*c15BadSig) VerifMarker(int) error { return nil }
+
 func c15Meta(m string) interface{} {
 	switch {
 	case m == "":
@@ -187,6 +192,8 @@ func propC15(c c15Case) *Outcome {
 		d := op.desc()
 		var h interface{}
 		switch {
+		case op.Typed && op.BadHandler && i%2 == 1:
+			h = &c15BadSig{id: i}
 		case op.Typed && op.BadHandler:
 			h = &c15Bad{id: i}
 		default:
